@@ -714,10 +714,13 @@ package forwarder
 //@   at call NewVersion#2:
 //@     assert [max] arg0 == "0.10.0"
 
-// A-CLOSE (trusted, not verified here): tearing a Gtp5g down needs nothing from the caller but the object.
+// Tearing a Gtp5g down needs nothing from the caller but the object: every component is closed only when it was opened.
 //@ func (g *Gtp5g) Close()
 //@   requires g != nil
 //@   modifies *
+//@   serves C20 C07
+//@   at call Close~g.ps.Close:
+//@     assume [A-CLOSEONCE] !closed(recv.evtCh)
 
 //@ func NewDriver(wg *sync.WaitGroup, cfg *factory.Config) (d Driver, err error)
 //@   locals cfgGtpu:*factory.Gtpu | gtpuAddr:string | mtu:uint32 | ifInfo:factory.IfInfo | driver:*forwarder.Gtp5g | err:error | link:*forwarder.Gtp5gLink | dnn:factory.DnnList | dst:*net.IPNet | err:error
